@@ -364,7 +364,16 @@ class FullFrontend(ConstrainedFrontend):
             raise ClaripyFrontendError("Backend error during unsat_core") from e
         unsat_core = self._solver_backend.unsat_core(solver)
 
-        return tuple(unsat_core)
+        # the backend turns Z3's core back into ASTs through a cache that all solvers share and that is keyed by the
+        # Z3 formula: an element can come back as another solver's constraint for the same formula, carrying that
+        # constraint's annotations. The core is made of the constraints of this solver.
+        def formula(a):
+            return self._solver_backend.convert(a).get_id()
+
+        own = {}
+        for c in (*self.constraints, *extra_constraints):
+            own.setdefault(formula(c), c)
+        return tuple(own.get(formula(u), u) for u in unsat_core)
 
     #
     # Serialization and such.
